@@ -39,10 +39,18 @@ def build(L, cfg):
     med = IndexedMedium(sim)
     nodes = {}
     custom = cfg["prefix"] != netaddr.DEFAULT_PREFIX or tuple(cfg["suffix"]) != netaddr.DEFAULT_SUFFIX or not cfg["multicast"]
-    for a in population(cfg):
+    pop = population(cfg)
+    for i, a in enumerate(pop):
         chip = Chip(sim, med, "%o" % a)
         chip.trace_on = False
-        n = L.RF24Network(SimSpiDev(chip), SimPin(), SimPin(chip, "ce"), a)
+        moved = cfg.get("moved")
+        if moved:
+            # the node was created with another address and moved to its place with the public setter
+            was = {"rotate": pop[(i + 1) % len(pop)], "from-default": 0o4444, "from-deep": 0o1234 if a != 0o1234 else 0o4321}[moved]
+            n = L.RF24Network(SimSpiDev(chip), SimPin(), SimPin(chip, "ce"), was)
+            n.node_address = a
+        else:
+            n = L.RF24Network(SimSpiDev(chip), SimPin(), SimPin(chip, "ce"), a)
         if custom:
             rekey_node(n, a, cfg["prefix"], cfg["suffix"], cfg["multicast"], cfg.get("keying"))
         nodes[a] = (n, chip)
@@ -351,7 +359,8 @@ def _drawn_strategy():
                 pop.append(c)
         keying = draw(st.sampled_from(["assign", "inplace"]))
         twins = draw(st.sampled_from([[], [0, 0o1, 0o23], [0o5, 0o314]]))
-        cfg = {"prefix": bs[0], "suffix": bs[1:], "multicast": draw(st.booleans()), "population": sorted(pop), "keying": keying, "twins": twins}
+        cfg = {"prefix": bs[0], "suffix": bs[1:], "multicast": draw(st.booleans()), "population": sorted(pop), "keying": keying, "twins": twins,
+               "moved": draw(st.sampled_from([None, None, "rotate", "from-default", "from-deep"]))}
         mode = draw(st.sampled_from(["route-full", "route-full", "registers", "multicast", "route-rekey"]))
         if mode == "route-rekey":
             return {"cfg": dict(DEFAULT_CFG, population=sorted(pop), twins=twins), "mode": mode, "srcs": sorted(pop),
@@ -377,9 +386,19 @@ def _rekey_fixed():
                    "rekey": {"prefix": px, "suffix": sx, "multicast": mc, "keying": keying}}
 
 
+def _moved():
+    """every node of the complete population was created elsewhere and moved to its address: registers and uniqueness on all
+    781 nodes, all first hops"""
+    for moved in ("rotate", "from-default", "from-deep"):
+        yield {"cfg": dict(DEFAULT_CFG, moved=moved), "mode": "registers", "srcs": []}
+        pop = [0, 0o1, 0o2, 0o11, 0o21, 0o12, 0o111, 0o211, 0o1111, 0o3]
+        yield {"cfg": dict(DEFAULT_CFG, population=pop, moved=moved), "mode": "route-full", "srcs": pop}
+
+
 def parts(tier):
     if tier == "quick":
         return [Part("registers+multicast", "enum", _fixed(True), exhaustive=True),
+                Part("nodes-moved-to-their-address", "enum", _moved, exhaustive=True),
                 Part("first-hop-all-pairs", "enum", _blocks("route-first", DEFAULT_CFG, 48), exhaustive=True),
                 Part("full-delivery-sample", "enum", _blocks("route-full", DEFAULT_CFG, 16, take=3)),
                 Part("full-delivery-sample-multicast-off", "enum", _blocks("route-full", dict(DEFAULT_CFG, multicast=False), 16, take=1)),
@@ -387,6 +406,7 @@ def parts(tier):
                 Part("drawn-bytes-subtrees", "gen", _drawn_strategy, n=64),
                 Part("drawn-bytes-all-nodes", "gen", _drawn_all_strategy, n=16)]
     return [Part("registers+multicast", "enum", _fixed(False), exhaustive=True),
+            Part("nodes-moved-to-their-address", "enum", _moved, exhaustive=True),
             Part("full-delivery-all-pairs", "enum", _blocks("route-full", DEFAULT_CFG, 96), exhaustive=True),
             Part("full-delivery-all-pairs-multicast-off", "enum", _blocks("route-full", dict(DEFAULT_CFG, multicast=False), 96), exhaustive=True),
             Part("rekey-after-traffic", "enum", _rekey_fixed, exhaustive=True),
